@@ -26,6 +26,7 @@ func checkC07(p *Prog, r *Report) {
 	ruleC07ShortCircuit(p, a, r)
 	ruleC07Bool(p, a, r)
 	ruleC07EqKinds(p, a, r)
+	ruleC07Unary(p, a, r)
 	ruleDivisionGuards(p, a, r, "R-C07-DIV", true)
 	ruleC07Sym(p, a, r)
 	ruleC07Fmt(p, a, r)
@@ -246,7 +247,8 @@ func ruleC07Grammar(p *Prog, a *Anchors, r *Report) map[string]*gramLevel {
 			}
 		}
 	}
-	// unary sign / not are consumed before the first term is parsed (so ^ * / % bind tighter than unary minus)
+	// unary sign / not are consumed before the first term is parsed (so ^ binds tighter than unary minus; what the
+	// sign is applied to is R-C07-UNARY's)
 	if gl := levels["parseSimpleExpression"]; gl != nil {
 		terms := gl.callsF["parseTerm"]
 		var first ssa.Instruction
@@ -264,7 +266,7 @@ func ruleC07Grammar(p *Prog, a *Anchors, r *Report) map[string]*gramLevel {
 			}
 		}
 		if ok {
-			r.OK("parseSimpleExpression:unary-first", p.Pos(gl.fn.Pos()), "sign and negation are consumed before the first term is parsed and apply to the whole term")
+			r.OK("parseSimpleExpression:unary-first", p.Pos(gl.fn.Pos()), "sign and negation are consumed before the first term is parsed (^ binds tighter than either)")
 		} else {
 			r.Bad("parseSimpleExpression:unary-first", p.Pos(gl.fn.Pos()), "unary sign/negation are not consumed before parsing the first term")
 		}
